@@ -18,7 +18,7 @@ import vlib
 from vlib import CheckError
 
 PID = "C13"
-REPLAYS = ["f3a", "f3b", "f3c", "f3d", "upkey", "collide", "close2", "closefault", "tunfail"]
+REPLAYS = ["f3a", "f3b", "f3c", "f3d", "upkey", "collide", "close2", "closefault", "tunfail", "sendinflight"]
 REPLAY_DOC = {
     "f3a": "BindUpdate (net.Lock -> peers.RLock) vs UAPI remove peer (peers.Lock, Peer.Stop waits for the sender blocked in SendBuffers on net.RLock); Proofs.bindupdate_vs_removepeer_deadlocks",
     "f3b": "UAPI private_key equal to a peer's key (staticIdentity.Lock + peers.Lock, Peer.Stop waits for the sender) vs the sender's rekey (CreateMessageInitiation -> staticIdentity.RLock); Proofs.setprivatekey_collision_vs_sender_rekey_deadlocks",
@@ -28,6 +28,7 @@ REPLAY_DOC = {
     "closefault": "scenario that must hold: bind.Close reports an error although it closed and receive calls notice only after 300 ms; when Down / Close return no RoutineReceiveIncoming goroutine is parked in its loop",
     "f3d": "Down (peers.RLock, Peer.Stop waits for the peer's routine) vs that routine's rekey (CreateMessageInitiation -> staticIdentity.RLock) vs UAPI private_key, any key (staticIdentity.Lock -> peers.Lock); Proofs.down_vs_setprivatekey_vs_sender_rekey_deadlocks",
     "tunfail": "scenario that must hold: a fatal TUN read error under a running device; device.Wait() fires, every later call returns, bind closed, goroutines gone",
+    "sendinflight": "scenario that must hold: a data send parked inside bind.Send (SendGate) while Down / BindUpdate / Close run; none of them may return before the send is released",
     "upkey": "Up (peers.RLock in upLocked, keepalive -> CreateMessageInitiation -> staticIdentity.RLock) vs direct device.SetPrivateKey (staticIdentity.Lock -> peers.Lock); Proofs.up_keepalive_vs_direct_setprivatekey_deadlocks",
 }
 RUN_THEOREMS = ["Run.code_edges_minus_listed_inversions_climb", "Run.no_new_same_class_nesting",
@@ -40,7 +41,7 @@ K_NAMES = ["bind-log(observed Open/Close/Send + call log |= Automaton.holdsb, sh
            "deadlock-replays(each ..._deadlocks schedule replayed on the real code, signature reported; plus the must-return scenario 'collide')"]
 RULE = ("one round = a fresh device (sim bind/tun, 3 ref peers) driven by N concurrent callers running random plans of "
         "{Up, Down, BindUpdate, IpcSet(add/remove peer, replace_peers, listen_port, private_key, keepalive, endpoint, fwmark), IpcGet, MTU event, "
-        "TUN bursts, Close mid-plan in 1/3 of the rounds} with network+TUN traffic and handshakes in both directions, then Down/Close (final Close by two goroutines in half of the rounds; in 1/5 of the rounds the sim bind reports an error from Close and its receive calls notice the close 45 ms late) and calls after Close; in 1/4 of the close-mid rounds and 1/6 of the final phases the device is closed by a fatal TUN read error (sim.Tun.FailRead) instead of Close; "
+        "TUN bursts, Close mid-plan in 1/3 of the rounds} with network+TUN traffic and handshakes in both directions, then Down/Close (final Close by two goroutines in half of the rounds; in 1/5 of the rounds the sim bind reports an error from Close and its receive calls notice the close 45 ms late) and calls after Close; in 1/4 of the rounds every bind.Send is held 0.3-2.8 ms inside the sim bind's gate and bracketed by two events (send in flight while Down/Close/BindUpdate run); in 1/4 of the close-mid rounds and 1/6 of the final phases the device is closed by a fatal TUN read error (sim.Tun.FailRead) instead of Close; "
         "plans come from one PRNG (seed, round); excluded overlaps (the listed findings): direct BindUpdate || peer-set/private-key UAPI sets, "
         "private_key sets in rounds that answer the device's initiations, private_key equal to a peer's key, Down || private_key set; "
         "non-trivial = the round's trace has >= 2 bind opens and >= 1 quiet window after a clean Down (decided inside Coq by Check.nontrivial); "
@@ -57,13 +58,17 @@ FOCUS_MAP = [("BindUpdate", ["bindupdate", "set_port"]), ("BindSetMark", ["set_f
              ("upLocked", ["up"]), ("changeState", ["up", "down"]), ("Device.Up", ["up"]), ("downLocked", ["down"]), ("Device.Down", ["down"]),
              ("Device.Close", ["close"]), ("Peer.Stop", ["down", "set_remove"]), ("Peer.Start", ["up", "set_add"]),
              ("Timer", ["set_keepalive", "tunburst"]), ("expired", ["set_keepalive", "tunburst"]), ("Routine", ["tunburst"]),
-             ("Send", ["tunburst", "set_keepalive"]), ("Consume", ["tunburst"]), ("Create", ["tunburst"])]
+             ("SendBuffers", ["tunburst", "down", "bindupdate", "set_port"]), ("Send", ["tunburst", "set_keepalive"]), ("Consume", ["tunburst"]), ("Create", ["tunburst"])]
 
 # the functions in which each listed inversion occurs (E1-E6); a listed class pair at a NEW site is a new inversion
 KNOWN_SITES = {(5, 2): {"Device.BindSetMark", "Device.BindUpdate", "Device.IpcGetOperation"},
                (6, 2): {"Device.ConsumeMessageInitiation", "Device.IpcGetOperation", "Device.NewPeer", "Device.SetPrivateKey"},
                (6, 3): {"Device.SetPrivateKey"}, (6, 4): {"Device.SetPrivateKey"}, (6, 5): {"Device.SetPrivateKey"},
                (7, 6): {"Device.ConsumeMessageResponse"}, (6, 6): {"Device.SetPrivateKey"}}
+
+# calls on the device's conn.Bind that may run without device.net held (as the code has them today):
+# the cookie reply, and closeBindLocked whose CALLER holds net.Lock
+KNOWN_UNLOCKED_BIND_CALLS = {("Device.SendHandshakeCookie", "Send"), ("closeBindLocked", "Close")}
 
 RUN_V = """From WG Require Import Base.Prelude Lifecycle.Locks Lifecycle.LockProofs Lifecycle.Edges Lifecycle.EdgeProofs Lifecycle.Proofs Lifecycle.EdgeCheck Gen.LockEdges.
 Definition new_inv := Eval vm_compute in (new_inversions code_edges). Print new_inv.
@@ -147,6 +152,13 @@ def lock_edges():
             res["new_detail"].append({"edge": "%s -> %s (listed inversion at a NEW site)" % (CLASS_NAMES[e[0]], CLASS_NAMES[e[1]]), "classes": list(e),
                                       "func": f, "at": None, "held_since": None, "via": None, "join": False})
     res["listed_inversions_seen"] = [describe(e) for e in [(5, 2), (6, 2), (6, 3), (6, 4), (6, 5), (7, 6), (6, 6)] if e in wit]
+    # Send / Open / Close / SetMark on the bind must be made with device.net held (the model's SendBuffers and
+    # BindUpdate programs hold it across the call; Down/Close/BindUpdate wait for in-flight sends through it)
+    res["bind_calls"] = [b for b in j.get("bind_calls", []) if b["method"] in ("Send", "Open", "Close", "SetMark")]
+    for b in res["bind_calls"]:
+        if not b["holds_net"] and (b["func"], b["method"]) not in KNOWN_UNLOCKED_BIND_CALLS:
+            res["new_detail"].append({"edge": "bind.%s called without device.net held" % b["method"], "classes": None, "func": b["func"], "at": b["pos"],
+                                      "held_since": None, "via": "held: %s" % (b["held"] or []), "join": False})
     res["ok"] = rc == 0 and not res["new_detail"] and "Closed under the global context" in o
     if not res["ok"] and not res["new_detail"]:
         res["error"] = "per-run lock-edge theorems do not check: " + o[-800:]
@@ -282,6 +294,8 @@ CLAUSES = {1: "bind opened while open (two Opens without a Close)", 2: "Open or 
            3: "Open or accepted Send after Close returned", 4: "bind still open when a clean Down / Close returned",
            5: "Open not directly preceded by Close (model shape)",
            6: "INFORMATIONAL: a peer observed running after a clean Down returned (no Up / UAPI peer section since its invocation) or after Close returned",
+           8: "a bind.Send call that started on the open bind is still in progress when a clean Down / Close returned",
+           9: "bind.Close called while a bind.Send that started on the open bind is in progress (model shape: net.RLock is held across the send)",
            7: "a RoutineReceiveIncoming goroutine still parked in its loop after a clean Down returned (before the next Up was invoked) or after Close returned"}
 
 
@@ -403,7 +417,7 @@ def check(tier, seed):
     directed = []
     if not lk["ok"]:
         what = "; ".join("%s in %s at %s%s" % (d["edge"], d["func"], d["at"], (" via " + d["via"]) if d["via"] else "") for d in lk.get("new_detail", [])) or (lk.get("error") or "?")
-        broken.append(CheckError("T.C13.lock-order-edges", "the source has a lock-order edge that is neither rank-increasing nor a listed inversion: " + what))
+        broken.append(CheckError("T.C13.lock-order-edges", "the source has a lock-order edge that is neither rank-increasing nor a listed inversion, or a bind call outside the net lock: " + what))
         if lk.get("new_detail"):
             fo = ",".join(focus_ops(lk))
             ddur = 40 if quick else 150
@@ -513,7 +527,7 @@ def check(tier, seed):
                               "harness_only_races": r.get("harness_only_races", 0)} for r in results + family + directed],
         "deadlock_replays": replay_summary, "family_runs": family_summary,
         "lock_edges": {k: lk.get(k) for k in ("ok", "edges", "functions", "type_errors_ignored", "unmapped_lock_classes", "new_detail", "gone",
-                                               "model_extra", "code_extra", "listed_inversions_seen", "error", "cmd")},
+                                               "model_extra", "code_extra", "listed_inversions_seen", "bind_calls", "error", "cmd")},
         "peer_running_after_down_observations": {"rounds": len({(f["run"], f["case"]) for f in info6}), "events": len(info6),
                                                  "note": "informational (Coq: C13_peer_running_after_down_reachable; a Down on an already-down device does not stop a peer started by the handlePostConfig race); the property text does not demand stopped peers after Down"},
         "known_findings_seen": sorted(k for k in reported if k in known), "violation_keys": sorted(k for k in reported if k not in known),
